@@ -266,6 +266,7 @@ def main():
     import c04
     stasks = []
     slice_b = F.seq_enumerated()[1::6 if quick else 2] + F.time_enumerated(rep.tier)[5::24 if quick else 3] + F.entry_matrix()[::4 if quick else 1]
+    slice_b += [c for c in F.alloc_templates() if 'write' in c.name or 'temps' in c.name or 'global-index' in c.name]
     for c in slice_b:
         c04.add_tasks(stasks, c.with_(word=2), full=not quick, wall=300)
     nsz = [0]
